@@ -164,17 +164,25 @@ unsigned int nondet_uint(void);
 
 static struct struct_io_channel CH, REAL, UFILE;
 static struct undo_private_data DATA;
+/* the key block (tdb bytes): a 16-byte header followed by 16-byte keys.  Declared as an array of keys (slot 0
+ * overlays the header) so that CBMC turns key accesses at a symbolic slot into array indexing instead of
+ * byte-level updates of a tdb-byte array (which cost a 64-bit comparator per byte and access). */
+static struct undo_key KEYB[CFG_TDB / sizeof(struct undo_key)];
 
 #define DATA_OF(ch) ((struct undo_private_data *)(ch)->private_data)
 #define KPB(d) ((d)->tdb_data_size / 16 - 1)
 #define LASTKEY(d) ((d)->keyb->keys[(d)->keys_in_block - 1])
 
+#ifdef EXP_NOKEY
+#define LASTKEY_DESCRIBES(d, bs) 1
+#else
 /* the index about to be written describes the block that was just appended (see SPEC above) */
 #define LASTKEY_DESCRIBES(d, bs) ((d)->keys_in_block >= 1 && (d)->keys_in_block <= KPB(d) && \
 	M.crcs == 1 && LASTKEY(d).blk_crc == M.crc_out && \
 	LASTKEY(d).fsblk * (unsigned long long)(bs) <= MC.start && \
 	LASTKEY(d).fsblk * (unsigned long long)(bs) + LASTKEY(d).size == MC.start + M.nbytes && \
 	(LASTKEY(d).fsblk * (unsigned long long)(bs) == MC.start ? M.crc_seed == 0xffffffffu : M.crc_seed == M.prev_crc))
+#endif
 
 /* ---- callees of the same file, by contract ---- */
 static errcode_t undo_setup_tdb(struct undo_private_data *data)
@@ -350,8 +358,7 @@ static void build(void)
 	DATA.tdb_data_size = CFG_TDB;
 	DATA.tdb_written = 1;
 	DATA.offset = IN.fs_offset;
-	DATA.keyb = malloc(CFG_TDB);
-	ASSUME(DATA.keyb != 0);
+	DATA.keyb = (struct undo_key_block *)KEYB;	/* content arbitrary (DFCC havocs statics) */
 	DATA.num_keys = IN.num_keys;
 	DATA.keys_in_block = IN.keys_in_block;
 	ASSUME(DATA.keys_in_block < KPB(&DATA));
